@@ -80,74 +80,70 @@ Section Alg.
   Notation sum := (sumR R rO radd).
   Notation prod := (prodR R rI rmul).
 
-  Lemma sum_app l1 l2 : sum (l1 ++ l2) = sum l1 + sum l2.
-  Proof. induction l1 as [|x l IH]; cbn; [ring|]. fold (sum (l ++ l2)). rewrite IH. fold (sum l). ring. Qed.
-
-  Lemma prod_app l1 l2 : prod (l1 ++ l2) = prod l1 * prod l2.
-  Proof. induction l1 as [|x l IH]; cbn; [ring|]. fold (prod (l ++ l2)). rewrite IH. fold (prod l). ring. Qed.
-
+  Lemma sum_nil : sum [] = 0. Proof. reflexivity. Qed.
+  Lemma prod_nil : prod [] = 1. Proof. reflexivity. Qed.
   Lemma sum_cons x l : sum (x :: l) = x + sum l. Proof. reflexivity. Qed.
   Lemma prod_cons x l : prod (x :: l) = x * prod l. Proof. reflexivity. Qed.
 
+  Ltac norm := cbn [map app flat_map combine fst snd]; rewrite ?sum_cons, ?sum_nil, ?prod_cons, ?prod_nil.
+
+  Lemma sum_app l1 l2 : sum (l1 ++ l2) = sum l1 + sum l2.
+  Proof. induction l1 as [|x l IH]; norm; [ring|]. rewrite IH. ring. Qed.
+
+  Lemma prod_app l1 l2 : prod (l1 ++ l2) = prod l1 * prod l2.
+  Proof. induction l1 as [|x l IH]; norm; [ring|]. rewrite IH. ring. Qed.
+
   Lemma sum_map_ext {A} (f g : A -> R) l : (forall x, In x l -> f x = g x) -> sum (map f l) = sum (map g l).
   Proof.
-    induction l as [|x l IH]; intro H; cbn; [reflexivity|].
-    fold (sum (map f l)). fold (sum (map g l)). rewrite IH, (H x); [reflexivity|left; reflexivity|].
+    induction l as [|x l IH]; intro H; norm; [reflexivity|].
+    rewrite IH, (H x); [reflexivity|left; reflexivity|].
     intros y Hy. apply H. right. exact Hy.
   Qed.
 
   Lemma sum_map_scale {A} c (f : A -> R) l : sum (map (fun x => c * f x) l) = c * sum (map f l).
-  Proof. induction l as [|x l IH]; cbn; [ring|]. fold (sum (map (fun x => c * f x) l)). fold (sum (map f l)). rewrite IH. ring. Qed.
+  Proof. induction l as [|x l IH]; norm; [ring|]. rewrite IH. ring. Qed.
 
   Lemma sum_map_scale_r {A} c (f : A -> R) l : sum (map (fun x => f x * c) l) = sum (map f l) * c.
-  Proof. induction l as [|x l IH]; cbn; [ring|]. fold (sum (map (fun x => f x * c) l)). fold (sum (map f l)). rewrite IH. ring. Qed.
+  Proof. induction l as [|x l IH]; norm; [ring|]. rewrite IH. ring. Qed.
 
   Lemma sum_map_add {A} (f g : A -> R) l : sum (map (fun x => f x + g x) l) = sum (map f l) + sum (map g l).
-  Proof.
-    induction l as [|x l IH]; cbn; [ring|].
-    fold (sum (map (fun x => f x + g x) l)). fold (sum (map f l)). fold (sum (map g l)). rewrite IH. ring.
-  Qed.
+  Proof. induction l as [|x l IH]; norm; [ring|]. rewrite IH. ring. Qed.
 
   Lemma sum_map_sub {A} (f g : A -> R) l : sum (map (fun x => f x - g x) l) = sum (map f l) - sum (map g l).
-  Proof.
-    induction l as [|x l IH]; cbn; [ring|].
-    fold (sum (map (fun x => f x - g x) l)). fold (sum (map f l)). fold (sum (map g l)). rewrite IH. ring.
-  Qed.
+  Proof. induction l as [|x l IH]; norm; [ring|]. rewrite IH. ring. Qed.
 
   Lemma sum_map_zero {A} (l : list A) : sum (map (fun _ => 0) l) = 0.
-  Proof. induction l as [|x l IH]; cbn; [reflexivity|]. fold (sum (map (fun _ : A => 0) l)). rewrite IH. ring. Qed.
+  Proof. induction l as [|x l IH]; norm; [reflexivity|]. rewrite IH. ring. Qed.
 
   Lemma sum_flat_map {A B} (f : A -> list B) (g : B -> R) l :
     sum (map g (flat_map f l)) = sum (map (fun x => sum (map g (f x))) l).
   Proof.
-    induction l as [|x l IH]; cbn; [reflexivity|]. rewrite map_app, sum_app.
-    fold (sum (map (fun x => sum (map g (f x))) l)). rewrite IH. reflexivity.
+    induction l as [|x l IH]; norm; [reflexivity|]. rewrite map_app, sum_app, IH. reflexivity.
   Qed.
 
   Lemma sum_swap {A B} (f : A -> B -> R) la lb :
     sum (map (fun a => sum (map (fun b => f a b) lb)) la) = sum (map (fun b => sum (map (fun a => f a b) la)) lb).
   Proof.
-    induction la as [|a la IH]; cbn.
+    induction la as [|a la IH]; norm.
     - symmetry. apply sum_map_zero.
-    - fold (sum (map (fun a => sum (map (fun b => f a b) lb)) la)). rewrite IH.
-      rewrite <- sum_map_add. reflexivity.
+    - rewrite IH, <- sum_map_add. apply sum_map_ext. intros b _. norm. reflexivity.
   Qed.
 
   Lemma prod_perm l l' : Permutation l l' -> prod l = prod l'.
   Proof.
-    induction 1 as [| x l l' _ IH | x y l | l l' l'' _ IH1 _ IH2]; cbn.
+    induction 1 as [| x l l' _ IH | x y l | l l' l'' _ IH1 _ IH2]; norm.
     - reflexivity.
-    - fold (prod l). fold (prod l'). rewrite IH. reflexivity.
-    - fold (prod l). ring.
+    - rewrite IH. reflexivity.
+    - ring.
     - rewrite IH1. exact IH2.
   Qed.
 
   Lemma sum_perm l l' : Permutation l l' -> sum l = sum l'.
   Proof.
-    induction 1 as [| x l l' _ IH | x y l | l l' l'' _ IH1 _ IH2]; cbn.
+    induction 1 as [| x l l' _ IH | x y l | l l' l'' _ IH1 _ IH2]; norm.
     - reflexivity.
-    - fold (sum l). fold (sum l'). rewrite IH. reflexivity.
-    - fold (sum l). ring.
+    - rewrite IH. reflexivity.
+    - ring.
     - rewrite IH1. exact IH2.
   Qed.
 
@@ -156,7 +152,7 @@ Section Alg.
     NoDup l -> In q l -> sum (map (fun x => if eqd q x then g x else 0) l) = g q.
   Proof.
     induction l as [|x l IH]; intros Hnd Hin; [destruct Hin|]. inversion Hnd as [|? ? Hnx Hnd']; subst.
-    cbn. fold (sum (map (fun x => if eqd q x then g x else 0) l)). destruct (eqd q x) as [->|Hne].
+    norm. destruct (eqd q x) as [->|Hne].
     - rewrite (sum_map_ext _ (fun _ => 0)), sum_map_zero; [ring|].
       intros y Hy. destruct (eqd x y) as [->|]; [contradiction|reflexivity].
     - destruct Hin as [->|Hin]; [contradiction|]. rewrite IH by assumption. ring.
@@ -197,14 +193,14 @@ Section Alg.
     sum (map (W cs) (all_patterns (total (map nl cs)))) = prod (map tot cs).
   Proof.
     induction cs as [|c cs IH]; cbn [map total fold_right].
-    - cbn. ring.
+    - cbn [all_patterns]. unfold W. norm. ring.
     - fold (total (map nl cs)). rewrite all_patterns_app, sum_flat_map.
       rewrite (sum_map_ext _ (fun q => w c q * prod (map tot cs))).
-      + rewrite sum_map_scale_r. cbn. reflexivity.
+      + rewrite sum_map_scale_r. norm. reflexivity.
       + intros q Hq. apply all_patterns_length in Hq. rewrite map_map.
         rewrite (sum_map_ext _ (fun p' => w c q * W cs p')).
         * rewrite sum_map_scale, IH. reflexivity.
-        * intros p' _. unfold W. cbn [map]. rewrite split_label_app by exact Hq. cbn. reflexivity.
+        * intros p' _. unfold W. cbn [map]. rewrite split_label_app by exact Hq. norm. reflexivity.
   Qed.
 
   (** marginal: fix flattened position [h] to "labelled" *)
@@ -222,7 +218,7 @@ Section Alg.
     sum (map (fun p => bit p h * W cs p) (all_patterns (total (map nl cs)))) = Mrg cs h.
   Proof.
     revert h. induction cs as [|c cs IH]; intro h; cbn [map total fold_right Mrg].
-    - cbn. unfold bit. destruct h; cbn; ring.
+    - cbn [all_patterns]. unfold W, bit. norm. destruct h; cbn [nth]; ring.
     - fold (total (map nl cs)). rewrite all_patterns_app, sum_flat_map.
       destruct (Nat.ltb h (nl c)) eqn:Hlt.
       + apply Nat.ltb_lt in Hlt.
@@ -231,7 +227,7 @@ Section Alg.
         * intros q Hq. apply all_patterns_length in Hq. rewrite map_map.
           rewrite (sum_map_ext _ (fun p' => (bit q h * w c q) * W cs p')).
           -- rewrite sum_map_scale, sum_prod_patterns. reflexivity.
-          -- intros p' _. unfold W at 1. cbn [map]. rewrite split_label_app by exact Hq. cbn.
+          -- intros p' _. unfold W at 1. cbn [map]. rewrite split_label_app by exact Hq. norm.
              unfold bit. rewrite app_nth1 by lia. unfold W. ring.
       + apply Nat.ltb_ge in Hlt.
         rewrite (sum_map_ext _ (fun q => w c q * Mrg cs (h - nl c))).
@@ -239,7 +235,7 @@ Section Alg.
         * intros q Hq. apply all_patterns_length in Hq. rewrite map_map.
           rewrite (sum_map_ext _ (fun p' => w c q * (bit p' (h - nl c) * W cs p'))).
           -- rewrite sum_map_scale, IH. reflexivity.
-          -- intros p' _. unfold W at 1. cbn [map]. rewrite split_label_app by exact Hq. cbn.
+          -- intros p' _. unfold W at 1. cbn [map]. rewrite split_label_app by exact Hq. norm.
              unfold bit. rewrite app_nth2 by lia. rewrite Hq. unfold W. ring.
   Qed.
 End Alg.
